@@ -539,7 +539,13 @@ def check_buffer_discipline(run):
         for n in ir.walk(st):
             if n.get("k") == "MCall" and callee_qn(n) == "CDNS::BaseCborOutputWriter::write":
                 a = n.get("args", [])
-                lenok = len(a) == 2 and show(a[1]) in ("(this.m_p - this.m_buffer)",)
+                ln_ = a[1] if len(a) == 2 else None
+                # the staged length, possibly through a value-preserving conversion to the parameter type
+                while isinstance(ln_, dict) and ln_.get("k") == "Cast" and (ln_.get("t") or "").replace("const ", "") in (
+                        "unsigned long", "long", "std::size_t", "size_t", "unsigned long long", "long long", "std::ptrdiff_t", "std::streamsize"):
+                    ln_ = ln_.get("e")
+                lenok = isinstance(ln_, dict) and ln_.get("k") == "Bin" and ln_.get("op") == "-" and \
+                    is_member(ir.unwrap_all_casts(ln_["lhs"]), "m_p") and is_member(ir.unwrap_all_casts(ln_["rhs"]), "m_buffer")
                 srcok = len(a) == 2 and is_member(ir.unwrap_all_casts(a[0]), "m_buffer")
                 seq.append(("write", lenok and srcok, g))
             if n.get("k") == "Bin" and n.get("op") == "=":
